@@ -12,7 +12,7 @@ from lib.tocoq import term, val
 PROP = "C06"
 PROPS_FILE = "props/C06.v"
 GEN = ["gen_partition"]
-CORRESPONDENCES = ["partition:_partition_write_loads~model", "select:partition_write_reqs~model",
+CORRESPONDENCES = ["sizes:_estimate_write_req_storage_size~tensor-bytes", "partition:_partition_write_loads~model", "select:partition_write_reqs~model",
                    "consolidate:consolidate_replicated_entries~model", "replicated_paths:_calculate_replicated_entries~model"]
 RULE = ("(1) real _partition_write_loads on generated load vectors (W 1..8, whole-path and chunked units, sizes incl. 0, "
         "equal sizes for ties; thorough: bounded-exhaustive W<=4, starting loads<=3, sizes<=4, <=5 chunk units (<=4 for W=4 plus a sample of 5) and <=3 whole-path units (<=2 for W=4)); (2) real "
@@ -424,6 +424,7 @@ def run_partition_scenario(spec):
     from torchsnapshot.pg_wrapper import PGWrapper
     W = spec["W"]
     inputs = [None] * W
+    size_mismatch = []
 
     def fn(r):
         entries, wrs = {}, {}
@@ -433,7 +434,14 @@ def run_partition_scenario(spec):
         for i, s in enumerate(spec["priv"][r]):
             e, w = prepare_write(build(s, salt=r + 1), f"priv/p{i}", r, False)
             entries[f"priv/p{i}"], wrs[f"priv/p{i}"] = e, w
-        est = {p: [_estimate_write_req_storage_size(x) for x in ws] for p, ws in wrs.items()}
+        # sizes measured by the harness itself (bytes of a tensor = element size x elements, whatever its serializer;
+        # objects: their declared staging cost), NOT by the code under test; the code's own estimate is compared below
+        est = {p: [independent_size(x) for x in ws] for p, ws in wrs.items()}
+        for p, ws in wrs.items():
+            for x, mine in zip(ws, est[p]):
+                theirs = _estimate_write_req_storage_size(x)
+                if theirs != mine:
+                    size_mismatch.append((p, type(x.buffer_stager).__name__, getattr(getattr(x.buffer_stager, "entry", None), "dtype", None), mine, theirs))
         inputs[r] = (copy.deepcopy(entries), {p: list(ws) for p, ws in wrs.items()}, est)
         ne, nw = partition_write_reqs(entries, wrs, PGWrapper(None))
         return dict(ne), {p: list(ws) for p, ws in nw.items()}
@@ -448,7 +456,24 @@ def run_partition_scenario(spec):
         consolidated = consolidate_replicated_entries([copy.deepcopy(m) for m in gathered])
     except ValueError as e:
         consolidated = None
-    return {"inputs": inputs, "results": results, "gathered": gathered, "consolidated": consolidated, "calls": spy.calls}
+    return {"inputs": inputs, "results": results, "gathered": gathered, "consolidated": consolidated, "calls": spy.calls,
+            "size_mismatch": size_mismatch}
+
+
+_ESIZE_BY_NAME = {"torch.float64": 8, "torch.float32": 4, "torch.float16": 2, "torch.bfloat16": 2, "torch.complex128": 16,
+                  "torch.complex64": 8, "torch.int64": 8, "torch.int32": 4, "torch.int16": 2, "torch.int8": 1, "torch.uint8": 1,
+                  "torch.bool": 1, "torch.qint32": 4, "torch.qint8": 1, "torch.quint8": 1}
+
+
+def independent_size(wr):
+    st = wr.buffer_stager
+    e = getattr(st, "entry", None)
+    if e is not None and hasattr(e, "dtype") and hasattr(e, "shape"):
+        n = 1
+        for d in e.shape:
+            n *= d
+        return _ESIZE_BY_NAME[e.dtype] * n
+    return st.get_staging_cost_bytes()
 
 
 def oracle_partition_scenario(spec, run, res: Result):
@@ -528,6 +553,9 @@ def check_partition_world(ctx: Ctx, res: Result):
         oracle_partition_scenario(spec, run, res)
         if "error" in run:
             continue
+        for sm in run.get("size_mismatch", [])[:3]:
+            res.mismatches.append(Mismatch("sizes:_estimate_write_req_storage_size~tensor-bytes", {"path": sm[0], "stager": sm[1], "dtype": sm[2]},
+                                           f"code estimates {sm[4]} bytes", f"{sm[3]} bytes"))
         from torchsnapshot.manifest import ChunkedTensorEntry
         res.count("world.replicated_chunked", sum(1 for n, _ in spec["rep"] if isinstance(run["inputs"][0][0][n], ChunkedTensorEntry)))
         for call in run["calls"]:
